@@ -78,6 +78,11 @@ impl Node {
         n
     }
 
+    /// hands the two service futures to the caller (to run them on a background thread)
+    pub fn take_futures(&mut self) -> (Pin<Box<dyn Future<Output = ()> + Send>>, Pin<Box<dyn Future<Output = ()> + Send>>) {
+        (self.rep_fut.take().unwrap(), self.sup_fut.take().unwrap())
+    }
+
     pub fn pump_rep(&mut self) -> bool {
         use_dir(&self.dir);
         let waker = noop_waker();
